@@ -152,6 +152,7 @@ def check(F, run, tier):
                                 "OP2Utility::ImageHeader::DefaultUsedColorMapEntries", "OP2Utility::ImageHeader::DefaultImportantColorCount",
                                 "OP2Utility::ImageHeader::ValidBitCounts"]))
     run.add(ic.reader_validations(F, S))
+    run.add(ic.validate_not_stricter(F, S))
     run.add(ic.dimension_refusal(F, S))
     run.add(palette_bound(F, S))
     run.add(ic.pitch_law(F, S))
